@@ -1402,7 +1402,13 @@ class Gen(object):
                 logged = logged + [[5, {"t": t}]]
             return ["rawwrite", t, logged, decl]
         if depth > 0 and rng.random() < self.p_handler:
-            return ["handler", self.stmts(depth, enclosing, c)]      # same depth: actions start inside the handler
+            # always at least one action that starts and ends normally while the unrelated exception is being handled
+            h = self.new_h()
+            inner = [["msg", rng.randrange(10, 16), self.fields(2, 32, 40), None, "log_message"]] if rng.random() < 0.5 else []
+            act = ["act", h, rng.choice(self.styles), False, rng.randrange(10, 16), self.fields(2, 20, 26) + [[19, {"i": h}]], None,
+                   self.fields(2, 26, 32) + [[19, {"i": h}]], inner, "start_action"]
+            self.finished.append(h)
+            return ["handler", [act] + self.stmts(depth - 1, enclosing, c)]
         r = rng.random()
         if depth > 0 and r < 0.45:
             h = self.new_h()
@@ -1614,3 +1620,53 @@ def program_family(name, oracle, n_quick, n_thorough, nontrivial=None, deep=None
     return Family(name, gen, run_case, model_expr, model_obs, oracle, nontrivial or nontriv,
                   imports=["Model.Core", "Model.Prog"], project=project, describe=describe, shrink=shrink,
                   case_timeout=30, shard=40, coq_shard=60)
+
+
+# ---------------------------------------------------------------------------
+# feature corpus: small fixed programs that exercise, under EVERY seed, features whose random frequency is low
+def _E(i, cls=8, text=101):
+    return {"id": i, "cls": cls, "text": text, "sr": False, "falsy": False}
+
+
+_D1 = [["add", [[1, ["never"], _E(90, 2, 100)]]]]
+CORPUS_FEATURES = [
+    # finish() inside the action's own block, then the block still raises
+    {"classes": [], "registry": [], "pre": _D1,
+     "prog": [["try", [["act", 1, "with", False, 10, [[19, {"i": 1}]], None, [[19, {"i": 1}]],
+                        [["finish_again", 1, None], ["raise", _E(1)]], "start_action"]]],
+              ["try", [["act", 2, "with", False, 11, [[19, {"i": 2}]], None, [[19, {"i": 2}]],
+                        [["finish_again", 2, _E(2, 9, 102)], ["raise", _E(3)]], "start_action"]]]]},
+    # ... and the exception must keep propagating out of the program
+    {"classes": [], "registry": [], "pre": _D1,
+     "prog": [["act", 1, "with", False, 10, [[19, {"i": 1}]], None, [[19, {"i": 1}]],
+               [["act", 2, "with", False, 11, [[19, {"i": 2}]], None, [[19, {"i": 2}]],
+                 [["finish_again", 2, None], ["raise", _E(1)]], "start_action"]], "start_action"]]},
+    # success fields / extractor fields named like the end message's own fields
+    {"classes": [], "registry": [[8, ["fields", [[6, {"a": 21}], [8, {"i": 5}], [7, {"i": 6}], [41, {"i": 3}]]]]], "pre": _D1,
+     "prog": [["act", 1, "with", False, 10, [[19, {"i": 1}]], None, [[6, {"a": 22}], [7, {"i": 1}], [8, {"i": 2}], [19, {"i": 1}]], [], "start_action"],
+              ["try", [["act", 2, "with", False, 11, [[19, {"i": 2}]], None, [[27, {"i": 4}], [19, {"i": 2}]], [["raise", _E(1)]], "start_action"]]]]},
+    # finish(exc) while the action is still current, with an extractor that itself raises
+    {"classes": [], "registry": [[8, ["raise", _E(50, 9, 103)]]], "pre": _D1,
+     "prog": [["act", 1, "with", False, 10, [[19, {"i": 1}]], None, [[19, {"i": 1}]],
+               [["act", 2, "ctx", False, 11, [[19, {"i": 2}]], None, [[19, {"i": 2}]], [["finish_again", 2, _E(1)]], "start_action"],
+                ["msg", 12, [[33, {"i": 1}]], None, "log_message"]], "start_action"]]},
+    # the action's own context entered again while it is already entered (context() under with / under context(), run())
+    {"classes": [], "registry": [], "pre": _D1,
+     "prog": [["act", 1, "with", False, 10, [[19, {"i": 1}]], None, [[19, {"i": 1}]],
+               [["reenter", 1, [["msg", 12, [[33, {"i": 1}]], None, "log_message"]], "context"],
+                ["msg", 12, [[33, {"i": 2}]], None, "log_message"],
+                ["reenter", 1, [["msg", 12, [[33, {"i": 3}]], None, "log_message"]], "run"]], "start_action"],
+              ["msg", 13, [[33, {"i": 4}]], None, "log_message"],
+              ["act", 2, "ctx", False, 11, [[19, {"i": 2}]], None, [[19, {"i": 2}]],
+               [["reenter", 2, [["reenter", 2, [["msg", 12, [[33, {"i": 5}]], None, "log_message"]], "context"]], "context"],
+                ["msg", 12, [[33, {"i": 6}]], None, "log_message"]], "start_action"],
+              ["msg", 13, [[33, {"i": 7}]], None, "log_message"],
+              ["try", [["act", 3, "with", False, 10, [[19, {"i": 3}]], None, [[19, {"i": 3}]],
+                        [["reenter", 3, [["raise", _E(1)]], "context"]], "start_action"]]],
+              ["msg", 13, [[33, {"i": 8}]], None, "log_message"]]},
+    # an action that starts and ends normally while an unrelated exception is being handled
+    {"classes": [], "registry": [], "pre": _D1,
+     "prog": [["handler", [["act", 1, "with", False, 10, [[19, {"i": 1}]], None, [[26, {"i": 1}], [19, {"i": 1}]],
+                            [["msg", 12, [[33, {"i": 1}]], None, "log_message"]], "start_action"],
+                           ["act", 2, "run", False, 11, [[19, {"i": 2}]], None, [[19, {"i": 2}]], [], "start_action"]]]]},
+]
